@@ -221,6 +221,7 @@ func runCase(in input) hlib.Case {
 	ctx, cancel := context.WithCancel(context.Background())
 	defer cancel()
 	running := false
+	runPanic := make(chan string, 1) // a panic of the implementation inside Provider.Run's goroutine
 
 	mirror := map[string]*podSpec{} // the harness's own copy of what the informer holds
 	var evs []string
@@ -271,11 +272,22 @@ func runCase(in input) hlib.Case {
 					}
 				} else {
 					if !running {
-						go vp.P.Run(ctx)
+						go func() {
+							defer func() {
+								if r := recover(); r != nil {
+									runPanic <- fmt.Sprint(r)
+								}
+							}()
+							vp.P.Run(ctx)
+						}()
 						running = true
 					}
 					select {
 					case vp.P.IpSink() <- gostatsd.Source(o.IP):
+					case m := <-runPanic:
+						monitor("op %d: Provider.Run panicked: %s", i, m)
+						wedged = true
+						return
 					case <-time.After(10 * time.Second):
 						monitor("op %d: IpSink did not accept %q within 10s", i, o.IP)
 						wedged = true
@@ -287,6 +299,10 @@ func runCase(in input) hlib.Case {
 							monitor("op %d: asked for %q, InfoSource answered for %q", i, o.IP, info.IP)
 						}
 						inst = info.Instance
+					case m := <-runPanic:
+						monitor("op %d: Provider.Run panicked while looking up %q: %s", i, o.IP, m)
+						wedged = true
+						return
 					case <-time.After(10 * time.Second):
 						monitor("op %d: no answer on InfoSource for %q within 10s", i, o.IP)
 						wedged = true
